@@ -110,7 +110,7 @@ PROPS = {
         # their locked sections, are replayed through the SAME sequential model (results, Available, header bytes)
         conc=[dict(comp="blkconc", driver="blk", decisive=lambda d: d["op"].startswith("mon C17") or (not d["op"].startswith("hdr")))],
         rule="cases = (geometry, buffer size, fit flag, preset header bytes, op sequence): 22 block sizes (negative, 0, non-powers of two, powers of two up to 2048, page size +-1, multiples of the page size) x 7 small buffer sizes + exact-fit/oversized/too-small buffers x fit; exhaustive sequences to depth 5 (quick) / 6 (thorough) over {ArrangeBlock, FreeBlock(first, second, last, out of range), Block, reopen-on-a-copy, Available} on bs=1 (1 and 2 segments, 4 preset header contents) and bs=2; random runs of 20..300 ops on bs in {1,2,4,8} with 1..3 segments; buffers larger than 200 kB run with Go-side monitors only; non-trivial = an allocation followed a free, a segment boundary was crossed, the state was (re)opened with allocations present, or an invalid geometry was rejected; distinct by hash of (header, ops)",
-        assumptions=["the Buffer is the in-memory implementation (a memory-mapped file behaves the same as far as the allocator can tell; mmap persistence is the kernel)", "fewer than 2^31 blocks (available is an int32)", "concurrent callers: the sequential model is applied to the calls in the order of their locked sections (harness: callers parked right before the lock + free-running goroutines); atomicity of a locked section is Go's sync.Mutex"],
+        assumptions=["the differential run uses the in-memory Buffer; a memory-mapped file is exercised by the Go-side window scenario (close / narrower window / full reopen); mmap persistence itself is the kernel", "fewer than 2^31 blocks (available is an int32)", "concurrent callers: the sequential model is applied to the calls in the order of their locked sections (harness: callers parked right before the lock + free-running goroutines); atomicity of a locked section is Go's sync.Mutex"],
         trusted=["modelled, not verified: Buffer(offs,size) slicing, os.Getpagesize() (its value is passed to the model), sync/atomic counter"],
         explanation="C17Conc.concurrent_refines_set / order_respects_real_time / completed_in_order (generic atomic-step linearizability instantiated with Blk.B.step; premise = skeleton fact blocks.unlocked_state_access = []); C17.refines_set (outputs equal to the set model for every op sequence from any opened allocator: least free index handed out, ErrExhausted iff full, Available exact, reopen reproduces the set), geometry_valid_iff_accepted, ranges_disjoint, reopen_same_state, data_untouched; legacy_accepts_invalid is the kernel-checked witness of D4",
     ),
